@@ -419,6 +419,21 @@ def c20_catalogue(quick):
     nf = [U(1, links=[2, 3]), U(2, nofollow=1, links=[4]), U(3), U(4)]
     for tg in ('--follow-tags a', '--ignore-tags meta', '--ignore-tags img,meta,link'):
         out.append(scenario('robots-nofollow-tagfilter[%s]' % tg, nf, dict(robots=1, tags=tg), N=1, robots=rules))
+    # a UTF-8 byte order mark before the first record
+    out.append(scenario('robots-bom', [U(1, links=[2, 3]), U(2, disallowed=1), U(3)], dict(robots=1), N=1,
+                        robots={'a.test': {'kind': 'rules', 'bom': 1}}))
+    # an allowed URL that redirects to a disallowed path of the SAME origin
+    same = [U(1, links=[2, 4]), U(2, kind='redirect', rto=3, code=302), U(3, disallowed=1), U(4, kind='redirect', rto=5, code=307),
+            U(5, disallowed=1, path='/priv/p5')]
+    out.append(scenario('robots-redirect-same-origin-disallowed', same, dict(robots=1), N=1, robots=rules))
+    # more origins than any cache of parsed robots.txt files is likely to hold: none is fetched twice
+    # root -> one page of origin :8002 -> pages of 109 other origins, each linking back to a second page of :8002,
+    # which is therefore fetched after all of them
+    many = [U(1, links=[2]), U(2, port=8002, path='/p2', links=list(range(3, 112)))]
+    many += [U(i, port=8000 + i, path='/p%d' % i, links=[112]) for i in range(3, 112)]
+    many += [U(112, port=8002, path='/again')]
+    out.append(scenario('robots-110-origins', many, dict(robots=1), N=1,
+                        robots={('a.test:%d' % (8000 + i)): {'kind': 'rules'} for i in range(2, 112)}))
     # rules that mention the query string
     q = [U(1, links=[2, 3, 4, 5]), U(2, path='/search?q=1', disallowed=1), U(3, path='/search'), U(4, path='/page?action=edit', disallowed=1),
          U(5, path='/page?action=view')]
